@@ -10,3 +10,4 @@ import AcryoVerif.Props.C09
 import AcryoVerif.Props.C17
 import AcryoVerif.Props.C15
 import AcryoVerif.Props.C12
+import AcryoVerif.Props.C13
